@@ -35,6 +35,7 @@ LEVEL_NOTE = ("Trusted: Coq kernel + vm_compute, the harness (printer of abstrac
 TECHNIQUE = "Coq proof on an executable model of the prefix-counter mechanism + model/Spec/implementation correspondence evaluated in coqc"
 ASSUME = ["names are ASCII (the parser's name alphabet), so str.lower is the ASCII fold of Spec/Scope.v",
           "label names do not start with a digit, local-label names do (the parser's own split)",
+          "'ux = tgt' with ux used by nothing is represented abstractly by [Assign ux ext 0; Ref tgt]: the reference is resolved with the state of its own statement and forced at link time, i.e. a use site at that position; words are not compared for such programs",
           "'.extern all' / '.extern' / '.include' / '.end' are used at file level in the Spec's reading; inside '.repeat' bodies only the model claims faithfulness"]
 TRUSTED = ["tools/props/c11.py printer (abstract program -> source text) and reader (bytes -> 16-bit words)"]
 
@@ -55,6 +56,9 @@ def it_term(it):
         return f'Assign "{it[1]}" {"true" if it[2] else "false"} {it[3]}'
     if k == "ref":
         return f'Ref "{it[1]}"'
+    if k == "assignref":
+        # 'x = tgt' with x used by nothing: a definition whose value is a use site of tgt at this position
+        return f'Assign "{it[1]}" {"true" if it[2] else "false"} 0; Ref "{it[3]}"'
     if k == "block":
         return f"Block {it[1]} [{'; '.join(it_term(x) for x in it[2])}]"
     if k == "include":
@@ -84,6 +88,8 @@ def it_text(it, ind=""):
     if k == "ref":
         n = it[1]
         return f"{ind}.word {n}:" if n.isdigit() else f"{ind}.word {n}"
+    if k == "assignref":
+        return f"{ind}{it[1]} {'==' if it[2] else '='} {it[3]}"
     if k == "block":
         return f"{ind}.repeat {it[1]} {{\n" + "".join(it_text(x, ind + "  ") + "\n" for x in it[2]) + ind + "}"
     if k == "include":
@@ -204,6 +210,58 @@ def family_include(quick, rng):
     return out
 
 
+def family_defref(quick, rng):
+    """references that stand in the value of a definition nothing uses ('ux = tgt', 'ux == tgt'): every kind of invisible
+    name (another linked file's private symbol, the includer's / the included file's private symbol, a local label of
+    another scope or of another file, a name defined nowhere) and the visible controls (own private symbol, exported
+    symbol in each export form, own local label), with the definition in the main, a linked and an included file, in every
+    statement order of each file and both file orders.  Judged on outcome class and error identifiers (judge_class)."""
+    out = []
+    n = [0]
+
+    def ux():
+        n[0] += 1
+        return f"ux{n[0]}"
+    for ext in (False, True):
+        scen = []
+        # (name, linked files, include table)
+        scen.append(("other-private", [[("assign", "va", False, 7)], [("assignref", ux(), ext, "va")]], []))
+        scen.append(("other-private-case", [[("label", "Va", False), ("ref", "va")], [("assignref", ux(), ext, "VA"), ("ref", "wx"), ("assign", "wx", False, 8)]], []))
+        scen.append(("nowhere", [[("assign", "va", False, 7), ("assignref", ux(), ext, "nowhere")]], []))
+        scen.append(("parent-private-from-include", [[("assign", "va", False, 7), ("include", 0)]], [[("assignref", ux(), ext, "va")]]))
+        scen.append(("include-private-from-parent", [[("include", 0), ("assignref", ux(), ext, "vb")]], [[("assign", "vb", False, 9), ("ref", "vb")]]))
+        scen.append(("local-other-scope", [[("local", "1$"), ("ref", "1$"), ("label", "va", False), ("assignref", ux(), ext, "1$")]], []))
+        scen.append(("local-other-file", [[("local", "2$"), ("ref", "2$")], [("label", "vb", False), ("assignref", ux(), ext, "2$")]], []))
+        scen.append(("local-into-include", [[("local", "1$"), ("include", 0)]], [[("assignref", ux(), ext, "1$")]]))
+        # visible controls
+        scen.append(("own-private", [[("assign", "va", False, 7), ("assignref", ux(), ext, "Va"), ("ref", "va")]], []))
+        scen.append(("own-local", [[("label", "va", False), ("local", "1$"), ("assignref", ux(), ext, "1$")]], []))
+        for form in ("colon", "extern", "externall", "label-colon"):
+            a = []
+            if form == "label-colon":
+                a.append(("label", "va", True))
+            else:
+                a.append(("assign", "va", form == "colon", 7))
+            if form == "extern":
+                a.append(("extern", ["VA"]))
+            if form == "externall":
+                a.append(("externall",))
+            scen.append(("exported-" + form, [a, [("assignref", ux(), ext, "va"), ("ref", "va")]], []))
+            scen.append(("exported-" + form + "-from-include", [[("include", 0)], [("assignref", ux(), ext, "vA")]], [a]))
+            scen.append(("exported-" + form + "-into-include", [a, [("include", 0)]], [[("assignref", ux(), ext, "va")]]))
+        for name, linked, table in scen:
+            allp = list(perm_files(linked + table))
+            if quick and len(allp) > 24:
+                allp = rng.sample(allp, 24)
+            for p in allp:
+                l = [list(x) for x in p[:len(linked)]]
+                t = [list(x) for x in p[len(linked):]]
+                out.append((f"defref:{name}:{'==' if ext else '='}", l, t))
+                if len(l) > 1:
+                    out.append((f"defref:{name}:{'==' if ext else '='}", l[::-1], t))
+    return out
+
+
 # ---------------------------------------------------------------------------------------------
 # sampled programs
 def gen_items(rng, vs, n, depth, ninc, inc_lo, in_block=False):
@@ -230,6 +288,8 @@ def gen_items(rng, vs, n, depth, ninc, inc_lo, in_block=False):
             its.append(("externall",))
         elif c < 0.985 and not in_block:
             its.append(("end",))
+        elif c < 0.995 and not in_block:
+            its.append(("assignref", f"uq{vs.next()}", rng.random() < 0.3, rng.choice(ORD + ["1$", "2$", "20$", "nowhere"])))
         else:
             its.append(("ref", rng.choice(ORD)))
     return its
@@ -322,7 +382,7 @@ def observe(o):
 def all_cases(rng, tier, scale=1):
     quick = tier == "quick"
     cases = []
-    fams = [family_export(quick, rng), family_local(quick, rng), family_include(quick, rng)]
+    fams = [family_export(quick, rng), family_local(quick, rng), family_include(quick, rng), family_defref(quick, rng)]
     for f in fams:
         cases += f
     n = (1500 if quick else 12000) * scale
@@ -350,11 +410,22 @@ def run_cases(rep, cases, spec_only=False, tag=ID):
         t, py = observe(o)
         terms.append(f"({prog_term(linked, table)}, {t})")
         pys.append(py)
-    if spec_only:
-        codes = C.run_case_files(tag, "Run.C11SpecRun Spec.Scope", "", C.shard(terms, 250), judge_expr="map judge_spec cases", opens=OPENS)
-    else:
-        codes = C.run_case_files(tag, "Run.C11Run Run.C11SpecRun Spec.Scope", "", C.shard(terms, 250), judge_expr="map judge cases", opens=OPENS)
-    flat = [c for sh in codes for c in sh]
+    def has_defref(items):
+        return any(it[0] == "assignref" or (it[0] == "block" and has_defref(it[2])) for it in items)
+    cls = [any(has_defref(f) for f in linked + table) for _, linked, table in cases]
+    order = [k for k in range(len(cases)) if not cls[k]] + [k for k in range(len(cases)) if cls[k]]
+    nfull = len(cases) - sum(cls)
+    flat = [None] * len(cases)
+    for part, jfull, jspec, sub in ((order[:nfull], "judge", "judge_spec", ""), (order[nfull:], "judge_class", "judge_class_spec", "/class")):
+        if not part:
+            continue
+        tt = [terms[k] for k in part]
+        if spec_only:
+            codes = C.run_case_files(tag + sub, "Run.C11SpecRun Spec.Scope", "", C.shard(tt, 250), judge_expr=f"map {jspec} cases", opens=OPENS)
+        else:
+            codes = C.run_case_files(tag + sub, "Run.C11Run Run.C11SpecRun Spec.Scope", "", C.shard(tt, 250), judge_expr=f"map {jfull} cases", opens=OPENS)
+        for k, c in zip(part, [c for sh in codes for c in sh]):
+            flat[k] = c
     for (kind, linked, table), o, py, code, term in zip(cases, outs, pys, flat, terms):
         rep.add_eval()
         fam = kind.split(":")[0].replace("+link", "") + ("+link" if kind.endswith("+link") else "")
@@ -364,7 +435,8 @@ def run_cases(rep, cases, spec_only=False, tag=ID):
         ndefs = sum(t.count(":") + t.count("=") for _, t in files)
         if nrefs >= 1 and ndefs >= 2:
             rep.nontrivial((files and tuple(files), tuple(sorted(fs.items()))).__repr__())
-        inp = {"kind": kind, "files": [list(f) for f in files], "fs": fs, "term": term}
+        inp = {"kind": kind, "files": [list(f) for f in files], "fs": fs, "term": term,
+               "judge": "class" if any(has_defref(f) for f in linked + table) else "full"}
         if code & 4:
             rep.disagree("generated program outside the Spec's domain (harness bug)", inp)
             continue
@@ -421,5 +493,6 @@ def replay(data):
         print(text)
     print("now:", py)
     prog = inp["term"].rsplit(", Obs", 1)[0]
-    code = C.run_case_files(ID + "/replay", "Run.C11SpecRun Spec.Scope", "", [[f"{prog}, {t})"]], judge_expr="map judge_spec cases", opens=OPENS)[0][0]
+    jn = "judge_class_spec" if inp.get("judge") == "class" else "judge_spec"
+    code = C.run_case_files(ID + "/replay", "Run.C11SpecRun Spec.Scope", "", [[f"{prog}, {t})"]], judge_expr=f"map {jn} cases", opens=OPENS)[0][0]
     return code == 0
